@@ -40,8 +40,13 @@ def isTrueLit : Expr → Bool
   | .bool _ true => true
   | _ => false
 
-/-- conditions of `if`: the literal `true`, or an expression of the fragment that is not a boolean literal -/
-def condF (B : List String) (c : Expr) : Bool := isTrueLit c || (ExprF (bnd B) c && !isBoolLit c)
+/-- the condition of an `if` is the literal `false` (the compiler then emits a JUMP and the else part only) -/
+def isFalseLit : Expr → Bool
+  | .bool _ false => true
+  | _ => false
+
+/-- conditions of `if`: the literals `true` / `false`, or an expression of the fragment that is not a boolean literal -/
+def condF (B : List String) (c : Expr) : Bool := isTrueLit c || isFalseLit c || (ExprF (bnd B) c && !isBoolLit c)
 
 /-- `var` declarations of the slice: one specification with one name, with a value or without -/
 def declF (B : List String) (tok : Nat) : List (Option Nat × List (Pos × String) × List (Option Expr)) → Bool
